@@ -73,6 +73,9 @@ func (h *Harness) feed(ev *Event) {
 		for o := pk.Off; o < pk.Off+pk.Len; o++ {
 			if x.fedEv[o] == 0 {
 				x.fedEv[o] = h.StartEv
+				x.fedAtMin[o] = ev.At
+			} else if ev.At < x.fedAtMin[o] {
+				x.fedAtMin[o] = ev.At
 			}
 		}
 		if pk.Off+pk.Len > x.FedHigh {
